@@ -78,7 +78,10 @@ def _render(case, rnd) -> str:
     tt, stt = _types(case)
 
     def rhs(r, typ="i"):
-        return f"{s()}.{col('d' + r[1:])}" if r[0] == "s" else _lit(typ, int(r[1:]))
+        if r[0] == "s":
+            # source non-key columns (d*) have names the target does not have: they may be written without the source qualifier
+            return col("d" + r[1:]) if case.get("unqualified_src") and rnd.random() < 0.7 else f"{s()}.{col('d' + r[1:])}"
+        return _lit(typ, int(r[1:]))
 
     for c in case["clauses"]:
         f = c.split(":")
@@ -203,7 +206,7 @@ def _gen_case(rnd: random.Random, i: int) -> dict:
         on_extra = {"t": tcol if "t" in which else None, "s": scol if "s" in which else None}
     return {"id": i, "on_extra": on_extra, "shape": (nk, ntc, nsc), "ttypes": tt, "stypes": stt, "tloc": tloc, "clauses": clauses, "tgt": tgt, "src": src, "style": style, "tname": tname, "sname": sname,
             "source_sql": source_sql, "recase": rnd.random() < 0.5, "omit_true": rnd.random() < 0.7,
-            "permute_insert": rnd.random() < 0.3, "render_seed": rnd.randrange(1 << 30)}
+            "permute_insert": rnd.random() < 0.3, "unqualified_src": rnd.random() < 0.3, "render_seed": rnd.randrange(1 << 30)}
 
 
 def _num(v):
